@@ -31,8 +31,8 @@ CONSTANTS MaxLen,        \* names: atoms per name
           MaxTitle,      \* titles: tokens per title
           MaxSlots       \* documents: objects besides the root
 
-VARIABLES name, sib, title, use, root, slots
-vars == <<name, sib, title, use, root, slots>>
+VARIABLES vName, vSib, vTitle, vUse, vRoot, vSlots
+vars == <<vName, vSib, vTitle, vUse, vRoot, vSlots>>
 
 None == [names |-> <<>>, req |-> <<>>]
 
@@ -41,15 +41,16 @@ None == [names |-> <<>>, req |-> <<>>]
 (***************************************************************************)
 W(s) == At("al", s)
 ClassReps == {Rep(c) : c \in ClassIds}
-NameAlphabet ==
-  ClassReps \cup {W("class"), W("dict"), W("init")}
-  \cup (IF Rich THEN {At("ows", "nl"), At("un", "u2"), W("None"), At("sym", ","),
-                      At("hsym", "plusminus"), At("cm", "middot")} ELSE {})
 PairAlphabet ==
   {Rep("al"), Rep("dg"), US, HY, SP, Rep("ows"), At("ows", "nl"), Rep("sym"), Rep("hsym"),
    Rep("un"), At("un", "u2"), Rep("nal"), Rep("nx"),
    W("dollar"), W("sign"), W("unknown"), W("class")}
   \cup (IF Rich THEN {W("blank"), Rep("cm"), Rep("nd"), W("dict")} ELSE {})
+(* every name of the pair universe is also explored as a name              *)
+NameAlphabet ==
+  ClassReps \cup PairAlphabet \cup {W("dict"), W("init")}
+  \cup (IF Rich THEN {W("None"), At("sym", ","), At("hsym", "plusminus"), At("cm", "middot")}
+        ELSE {})
 
 (* names longer than MaxLen that reach the reserved words                  *)
 SeedNames ==
@@ -82,7 +83,7 @@ Collide(a, b) == a # b /\ PairOut[a] = PairOut[b]
 (* a colliding pair is DECOMPOSABLE when both names can be cut in two so   *)
 (* that the left parts and the right parts each are equal or collide: it   *)
 (* then follows from shorter collisions of the universe.  The minimal      *)
-(* (atomic) pairs are the witnesses reported as root causes.               *)
+(* (atomic) pairs are the witnesses reported as vRoot causes.               *)
 SameOrCollide(a, b) == a = b \/ PairOut[a] = PairOut[b]
 Decomposable(a, b) ==
   \E i \in 0..Len(a), j \in 0..Len(b) :
@@ -92,7 +93,7 @@ Decomposable(a, b) ==
 MinColliders(n) == {m \in Colliders(n) : ~Decomposable(n, m)}
 
 (***************************************************************************)
-(* title tokens; lower-case spellings format to the library's names        *)
+(* vTitle tokens; lower-case spellings format to the library's names        *)
 (***************************************************************************)
 TitleAlphabet ==
   {W("a"), W("B"), At("dg", "1"), SP, US, Rep("nal"), Rep("sym"),
@@ -110,17 +111,25 @@ OuterTitle == <<W("Outer")>>
 (***************************************************************************)
 (* state machine                                                           *)
 (***************************************************************************)
-Init == /\ name \in {<<>>} \cup SeedNames
-        /\ sib = None /\ title = <<>> /\ use = "none" /\ root = <<>> /\ slots = <<>>
+(* sibling sets outside the pair universe: letters that differ as strings   *)
+(* but are the same identifier for the Python compiler (NFKC)               *)
+SibSeeds ==
+  { [names |-> << <<At("nal", "micro")>>, <<At("nal", "mu")>> >>, req |-> <<>>],
+    [names |-> << <<Rep("al"), At("nal", "micro")>>, <<Rep("al"), At("nal", "mu")>> >>,
+     req |-> << <<Rep("al"), At("nal", "mu")>> >>] }
 
-InNames  == sib = None /\ title = <<>> /\ use = "none" /\ slots = <<>>
-InTitles == name = <<>> /\ sib = None /\ slots = <<>>
-InDocs   == name = <<>> /\ sib = None /\ title = <<>> /\ use = "none"
+Init == /\ \/ vName \in {<<>>} \cup SeedNames /\ vSib = None
+           \/ vName = <<>> /\ vSib \in SibSeeds
+        /\ vTitle = <<>> /\ vUse = "none" /\ vRoot = <<>> /\ vSlots = <<>>
+
+InNames  == vSib = None /\ vTitle = <<>> /\ vUse = "none" /\ vSlots = <<>>
+InTitles == vName = <<>> /\ vSib = None /\ vSlots = <<>>
+InDocs   == vName = <<>> /\ vSib = None /\ vTitle = <<>> /\ vUse = "none"
 
 AppendChar ==
-  /\ InNames /\ Len(name) < MaxLen
-  /\ \E a \in NameAlphabet : name' = Append(name, a)
-  /\ UNCHANGED <<sib, title, use, root, slots>>
+  /\ InNames /\ Len(vName) < MaxLen
+  /\ \E a \in NameAlphabet : vName' = Append(vName, a)
+  /\ UNCHANGED <<vSib, vTitle, vUse, vRoot, vSlots>>
 
 SibCases(n) ==
   LET ms == MinColliders(n) \cup {m \in PairNames : Len(m) <= 1 /\ Len(n) <= 1 /\ m # n}
@@ -128,27 +137,27 @@ SibCases(n) ==
               [names |-> <<n>>, req |-> <<m>>],
               [names |-> <<n, m>>, req |-> <<n, m>>] } : m \in ms}
 MakeSibs ==
-  /\ InNames /\ name \in PairNames
-  /\ sib' \in SibCases(name)
-  /\ UNCHANGED <<name, title, use, root, slots>>
+  /\ InNames /\ vName \in PairNames
+  /\ vSib' \in SibCases(vName)
+  /\ UNCHANGED <<vName, vTitle, vUse, vRoot, vSlots>>
 
 AppendTok ==
-  /\ InTitles /\ Len(title) < MaxTitle
-  /\ \E a \in TitleAlphabet : title' = Append(title, a)
-  /\ UNCHANGED <<name, sib, use, root, slots>>
+  /\ InTitles /\ Len(vTitle) < MaxTitle
+  /\ \E a \in TitleAlphabet : vTitle' = Append(vTitle, a)
+  /\ UNCHANGED <<vName, vSib, vUse, vRoot, vSlots>>
 SetUse ==
-  /\ InTitles /\ Len(title) > 0 /\ use = "none"
-  /\ use' \in UseKinds
-  /\ UNCHANGED <<name, sib, title, root, slots>>
+  /\ InTitles /\ Len(vTitle) > 0 /\ vUse = "none"
+  /\ vUse' \in UseKinds
+  /\ UNCHANGED <<vName, vSib, vTitle, vRoot, vSlots>>
 
 SlotChoices == [pos : Positions, title : SlotTitles, shape : {1, 2}]
 AddSlot ==
-  /\ InDocs /\ Len(slots) < MaxSlots
-  /\ root' \in (IF slots = <<>> THEN RootTitles ELSE {root})
+  /\ InDocs /\ Len(vSlots) < MaxSlots
+  /\ vRoot' \in (IF vSlots = <<>> THEN RootTitles ELSE {vRoot})
   /\ \E sl \in SlotChoices :
-        /\ sl.pos = "addl" => \A j \in 1..Len(slots) : slots[j].pos # "addl"
-        /\ slots' = Append(slots, sl)
-  /\ UNCHANGED <<name, sib, title, use>>
+        /\ sl.pos = "addl" => \A j \in 1..Len(vSlots) : vSlots[j].pos # "addl"
+        /\ vSlots' = Append(vSlots, sl)
+  /\ UNCHANGED <<vName, vSib, vTitle, vUse>>
 
 Next == AppendChar \/ MakeSibs \/ AppendTok \/ SetUse \/ AddSlot
 Spec == Init /\ [][Next]_vars
@@ -159,59 +168,75 @@ Spec == Init /\ [][Next]_vars
 AsciiVocab(n) == \A i \in 1..Len(n) : IsAsciiAtom(n[i])
 
 ExportName ==
-  LET items == AttrNameC(name)
+  LET items == AttrNameC(vName)
       atoms == ItemAtoms(items)
       cs    == [j \in 1..Len(items) |-> items[j].c]
       flat  == FlatItems(items)
       text  == IF \A j \in 1..Len(atoms) : IsAsciiAtom(atoms[j]) THEN flat ELSE ""
-      paired == name \in PairNames
-  IN [t |-> "name", name |-> name, out |-> items, flat |-> flat, cs |-> cs, text |-> text,
+      paired == vName \in PairNames
+  IN [t |-> "name", name |-> vName, out |-> items, flat |-> flat, cs |-> cs, text |-> text,
       ok |-> R_C12_attr(cs, text, TRUE), clause |-> AttrClause(cs, text, TRUE),
       bad |-> BadClasses(cs),
-      xcheck |-> (AsciiVocab(name) => AttrName(FlatSeq(name)) = flat),
+      xcheck |-> (AsciiVocab(vName) => AttrName(FlatSeq(vName)) = flat),
       paired |-> paired,
-      coll |-> IF paired THEN Colliders(name) ELSE {},
-      mincoll |-> IF paired THEN MinColliders(name) ELSE {}]
+      coll |-> IF paired THEN {[m |-> m, sig |-> Sig(vName, m)] : m \in Colliders(vName)} ELSE {}]
 
 ExportSib ==
-  LET props == ObjectPropsC(sib.names, sib.req)
-  IN [t |-> "sib", names |-> sib.names, req |-> sib.req,
+  LET props == ObjectPropsC(vSib.names, vSib.req)
+      first  == vSib.names[1]
+      second == IF Len(vSib.names) > 1 THEN vSib.names[2] ELSE vSib.req[1]
+  IN [t |-> "sib", names |-> vSib.names, req |-> vSib.req,
+      sig |-> IF FlatAttr(first) = FlatAttr(second) THEN Sig(first, second) ELSE {},
       props |-> [j \in 1..Len(props) |->
                    [attr |-> props[j].attr, source |-> props[j].source,
                     required |-> props[j].required]],
-      ok |-> R_C12_sib(sib.names, sib.req, props)]
+      ok |-> R_C12_sib(vSib.names, vSib.req, props)]
 
 ClassRec(cls) == [name |-> cls.name, cs |-> ClassesOfAscii(cls.name), uid |-> cls.uid]
 
 ExportTitle ==
-  LET sl  == [pos |-> "prop", title |-> title, shape |-> 1]
+  LET sl  == [pos |-> "prop", title |-> vTitle, shape |-> 1]
       d   == ParseDocC(OuterTitle, <<sl>>)
       cls == << ClassRec(d.cls[1][2]), ClassRec(d.root) >>
-      used == {"Object", "Property", "Maybe", "String"} \cup UsesOf(use)
-  IN [t |-> "title", title |-> title, use |-> use, flat |-> FlatTitle(title),
+      used == ImportedNames({"Object", "Property", "Maybe", "String"} \cup UsesOf(vUse),
+                            {cls[1].name, cls[2].name})
+  IN [t |-> "title", title |-> vTitle, use |-> vUse, flat |-> FlatTitle(vTitle),
       cname |-> d.cls[1][2].name, rname |-> d.root.name,
       clash |-> {cls[i].name : i \in {j \in 1..2 : cls[j].name \in used}},
       clause |-> ClassClause(cls[1], used),
       ok |-> R_C12_classes(cls, used)]
 
 ExportDoc ==
-  LET d == ParseDocC(root, slots)
+  LET d == ParseDocC(vRoot, vSlots)
       all == [j \in 1..Len(d.seen) |-> ClassRec(d.seen[j])]
-  IN [t |-> "doc", root |-> root, slots |-> slots,
+  IN [t |-> "doc", root |-> vRoot, slots |-> vSlots,
       cls |-> [j \in 1..Len(d.cls) |-> [slot |-> d.cls[j][1], name |-> d.cls[j][2].name,
                                         uid |-> d.cls[j][2].uid]],
       mid |-> [j \in 1..Len(d.mid) |-> [slot |-> d.mid[j][1], name |-> d.mid[j][2].name,
                                         uid |-> d.mid[j][2].uid]],
       rootcls |-> [slot |-> 0, name |-> d.root.name, uid |-> d.root.uid],
       names |-> [j \in 1..Len(all) |-> all[j].name],
-      ok |-> R_C12_classes(all, {"Object", "Property", "Maybe", "String", "Integer",
-                                 "Array", "List", "AnyOf", "Union", "Any", "Element"})]
+      ok |-> R_C12_classes(all, GenNames)]
 
 Export ==
-  IF sib # None THEN ExportSib
-  ELSE IF slots # <<>> THEN ExportDoc
-  ELSE IF title # <<>> THEN ExportTitle
+  IF vSib # None THEN ExportSib
+  ELSE IF vSlots # <<>> THEN ExportDoc
+  ELSE IF vTitle # <<>> THEN ExportTitle
   ELSE ExportName
 
-Inv == PrintT(ToJson(Export))
+(* the tables of the model, printed once (empty state) so that the harness  *)
+(* can validate them against the running interpreter                       *)
+SeqAtoms(q) == {q[i] : i \in 1..Len(q)}
+AllAtoms == NameAlphabet \cup PairAlphabet \cup TitleAlphabet \cup UNION {SeqAtoms(q) : q \in SeedNames}
+            \cup {At("nal", "micro"), At("nal", "mu")}
+Table ==
+  [t |-> "table", classattr |-> ClassAttr, reserved |-> Reserved, keywords |-> PyKeywords,
+   objdir |-> ObjectDir, gen |-> GenNames, uses |-> [k \in UseKinds |-> UsesOf(k)],
+   reps |-> [c \in ClassIds |-> Rep(c)],
+   atoms |-> AllAtoms,
+   unames |-> {[a |-> a, uname |-> UniName(a)] :
+                 a \in {b \in AllAtoms : ClassAttr[b.c].named \in {"words", "hyph", "none"}}}]
+IsEmptyState == vName = <<>> /\ vSib = None /\ vTitle = <<>> /\ vSlots = <<>>
+
+Inv == PrintT(ToJson(Export)) /\ (IsEmptyState => PrintT(ToJson(Table)))
 =============================================================================
